@@ -89,6 +89,9 @@ func runCheck(prop, tier string, workers int, only string, noReplay bool) int {
 		results = append(results, hr)
 		fmt.Printf("harness %-34s paths=%-6d obligations=%-6d discharged=%-6d trivial=%-6d violations=%d incon=%d sat/unsat/unk=%d/%d/%d solver=%.1fs wall=%.1fs merged=%d kinds=%v\n",
 			h.Fn, hr.Paths, hr.Obligations, hr.Discharged, hr.Trivial, len(hr.Violations), len(hr.Incon), hr.NSat, hr.NUnsat, hr.NUnknown, hr.SolverTime.Seconds(), hr.Wall.Seconds(), hr.Merged, hr.PathKinds)
+		if os.Getenv("VERIF_QSTATS") != "" {
+			fmt.Printf("   query time buckets (<10ms,<100ms,<1s,<10s,>=10s): %v  time: %v\n", hr.Buckets, hr.BucketT)
+		}
 	}
 
 	// --- verdicts
